@@ -306,6 +306,7 @@ pub fn main(args: &[String]) {
         Ok(model) => {
             for ((c, l), m) in cases.iter().zip(lines.iter()).zip(model.iter()) {
                 rep.case(l);
+                util::breadcrumb("C12", l);
                 let (real, fails) = run_real(c);
                 rep.oracle_runs += 1;
                 for (what, d) in fails {
@@ -323,6 +324,7 @@ pub fn main(args: &[String]) {
         }
         Err(e) => rep.disagree("*", "model-driver", "", &e),
     }
+    util::breadcrumb_clear("C12");
     cpp_adaptor(&mut rep);
     rep.print();
 }
